@@ -184,3 +184,162 @@ func checkStringsEncodedVerbatim(c *Ctx, rule string) {
 	}
 	c.floor(rule, 20)
 }
+
+// checkReceivePathDoesNotClose (C02.R16): nothing reachable from the frame reader closes the connection.  The writer is
+// shared with the goroutine that sends the replies: closed on a framing error, the requests that were received whole
+// before the torn one and are still being served lose their replies.  Closing is Serve's business, after the workers
+// were joined.
+func checkReceivePathDoesNotClose(c *Ctx, rule string) {
+	p := c.P
+	rp := p.Func("(*conn).recvPacket")
+	cl := p.Func("(*conn).Close")
+	if rp == nil || cl == nil {
+		c.missing(rule, "(*conn).recvPacket / (*conn).Close")
+		return
+	}
+	c.looked(fnName(rp))
+	n := 0
+	for fn := range p.cone(rp) {
+		if !inModule(fn) {
+			continue
+		}
+		n++
+		var sites []ssa.Instruction
+		eachInstr(fn, func(in ssa.Instruction) {
+			cc := callOf(in)
+			if cc == nil {
+				return
+			}
+			if cc.StaticCallee() == cl {
+				sites = append(sites, in)
+				return
+			}
+			if cc.IsInvoke() && cc.Method.Name() == "Close" {
+				if root, _ := accessPath(cc.Value); root != nil && typeName(root.Type()) == "conn" {
+					sites = append(sites, in)
+				}
+			}
+		})
+		pos := p.Pos(fn.Pos())
+		if len(sites) > 0 {
+			pos = p.Pos(sites[0].Pos())
+		}
+		c.check(len(sites) == 0, rule, "no Close of the connection in "+fnName(fn), pos,
+			"the receive path leaves the connection open",
+			"the connection is closed from the receive path: replies to requests already received and still being served can no longer be written")
+	}
+	c.floor(rule, 2)
+}
+
+// checkReplyEncodersDoNotRefuse (C02.R17): the encoder of a reply does not invent an error.  Whatever a marshalPacket /
+// MarshalBinary method of a response type returns as its error is nil or the error of a call it made; a reply refused
+// by its own encoder (too long, say) is dropped by the sender, and its request is never answered while the ones behind
+// it are.
+func checkReplyEncodersDoNotRefuse(c *Ctx, rule string) {
+	p := c.P
+	n := 0
+	for _, fn := range p.LibFuncs() {
+		if outermost(fn) != fn || fn.Signature.Recv() == nil || fn.Package() != p.Sftp {
+			continue
+		}
+		if fn.Name() != "marshalPacket" && fn.Name() != "MarshalBinary" {
+			continue
+		}
+		if !p.implementsIface(fn.Signature.Recv().Type(), "responsePacket") || p.implementsIface(fn.Signature.Recv().Type(), "requestPacket") {
+			continue
+		}
+		res := fn.Signature.Results()
+		ei := res.Len() - 1
+		if ei < 0 || !isErrorType(res.At(ei).Type()) {
+			continue
+		}
+		n++
+		bad := ""
+		for _, lf := range returnLeavesDeep(fn, ei) {
+			switch x := lf.v.(type) {
+			case *ssa.Const:
+				continue
+			case *ssa.Extract:
+				continue
+			case *ssa.Call:
+				continue
+			default:
+				bad = x.String()
+			}
+		}
+		c.check(bad == "", rule, "error results of "+fnName(fn), p.Pos(fn.Pos()), "nil, or the error of a call",
+			"the encoder of a reply returns an error of its own making ("+bad+"): the sender drops the reply and the request is never answered")
+	}
+	c.floor(rule, 8)
+}
+
+// checkConnSendReturnsTheWritersError (C13.R24, shared as C04.R17): (*conn).sendPacket returns what the framing
+// function returned, on every path.  A short cut that returns the latched transport error bare hands an io.EOF from
+// the transport to ReadAt and WriteTo, which take it for the end of the file: a transfer cut by a lost connection
+// reports a short count with a nil error.
+func checkConnSendReturnsTheWritersError(c *Ctx, rule string) {
+	p := c.P
+	fn := p.Func("(*conn).sendPacket")
+	sp := p.Func("sendPacket")
+	if fn == nil || sp == nil {
+		c.missing(rule, "(*conn).sendPacket / sendPacket")
+		return
+	}
+	c.looked(fnName(fn))
+	n := 0
+	for _, lf := range returnLeavesDeep(fn, 0) {
+		n++
+		call, ok := lf.v.(*ssa.Call)
+		good := ok && call.Call.StaticCallee() == sp
+		c.check(good, rule, fmt.Sprintf("result #%d of (*conn).sendPacket", n), p.Pos(fn.Pos()), "the framing function's result",
+			"(*conn).sendPacket can return something else than what the framing function returned ("+lf.v.String()+"): a latched transport error handed out bare (io.EOF) is taken for the end of the file by the transfer loops")
+	}
+	c.floor(rule, 1)
+}
+
+// checkAllocatorLeavesPagesAlone (C18.R12): the allocator manages pages, it never writes into one.  A page lent out
+// may still be read by the goroutine that writes its reply when the session ends: a method of the allocator that
+// clears or overwrites page bytes (at Free, say) changes replies that are on their way.
+func checkAllocatorLeavesPagesAlone(c *Ctx, rule string) {
+	p := c.P
+	n := 0
+	isBytes := func(t types.Type) bool {
+		sl, ok := t.Underlying().(*types.Slice)
+		if !ok {
+			return false
+		}
+		b, ok := sl.Elem().Underlying().(*types.Basic)
+		return ok && b.Kind() == types.Byte
+	}
+	for _, fn := range p.LibFuncs() {
+		o := outermost(fn)
+		if o.Signature.Recv() == nil || typeName(o.Signature.Recv().Type()) != "allocator" || o.Package() != p.Sftp {
+			continue
+		}
+		n++
+		c.looked(fnName(fn))
+		bad, pos := "", p.Pos(fn.Pos())
+		eachInstr(fn, func(in ssa.Instruction) {
+			switch x := in.(type) {
+			case *ssa.Call:
+				switch builtinName(&x.Call) {
+				case "clear":
+					if len(x.Call.Args) == 1 && isBytes(x.Call.Args[0].Type()) {
+						bad, pos = "clear of a page", p.Pos(in.Pos())
+					}
+				case "copy":
+					if len(x.Call.Args) == 2 && isBytes(x.Call.Args[0].Type()) {
+						bad, pos = "copy into a page", p.Pos(in.Pos())
+					}
+				}
+			case *ssa.Store:
+				if ia, ok := x.Addr.(*ssa.IndexAddr); ok && isBytes(ia.X.Type()) {
+					bad, pos = "store into a page", p.Pos(in.Pos())
+				}
+			}
+		})
+		c.check(bad == "", rule, "page bytes untouched by "+fnName(fn), pos, "no write into page contents",
+			"a method of the allocator writes into page contents ("+bad+"): a page may still be read by the sender of its reply")
+	}
+	c.floor(rule, 4)
+}
